@@ -65,11 +65,15 @@ def main():
             root = os.path.join(top, rootname)
             entries = {}      # relative to top: name -> content or None (dir)
             entries[rootname] = None
-            for sub in ("sub", "sub/deep", "a.b", "1st"):      # names starting with a digit sort differently (alphanum_key)
+            # names starting with a digit sort differently (alphanum_key); names with glob metacharacters next to the name they match
+            for sub in ("sub", "sub/deep", "a.b", "1st", "run[1]", "run1", "wh?t", "what"):
                 if rng.random() < 0.7 or sub == "sub":
                     entries[rootname + "/" + sub] = None
             files = ["t.csv", "sub/u.csv", "notes.txt", "sub/x.dat", ".hidden", "arch.tar.gz", "a.b/t.csv", "mycatalog.xml",
-                     "2020-01.csv", "10.txt", "sub/9.csv", "1st/t.csv"]
+                     "2020-01.csv", "10.txt", "sub/9.csv", "1st/t.csv",
+                     # a file whose name is another file's name plus a dotted suffix (even a DAP suffix) is a file of its own
+                     "notes.txt.bak", "t.csv.das", "sub/u.csv.orig", "t.csv.dds",
+                     "run[1]/in_brackets.txt", "run1/in_plain.txt", "wh?t/q.txt", "what/w.txt"]
             for f in files:
                 if rng.random() < 0.8 and (os.path.dirname(rootname + "/" + f) in entries):
                     entries[rootname + "/" + f] = f
@@ -94,7 +98,8 @@ def main():
 
         segs = ["..", ".", "", "sub", "deep", "t.csv", "u.csv", "t.csv.dds", "t.csv.das", "u.csv.dods", "notes.txt", "notes.txt.dds",
                 "catalog.xml", "%2e%2e", "..%2F", "x.dat", "x.dat.dds", ".hidden", "arch.tar.gz", "a.b", "nope", "mycatalog.xml",
-                "t.csv.xyz", "t", "%2E", "1st", "2020-01.csv", "2020-01.csv.dds", "10.txt", "9.csv.dods", "%252e%252e", "%252E%252E", "..%252F", "%25", "s.txt.dds", "%2e%2e%2f"]
+                "t.csv.xyz", "t", "%2E", "1st", "notes.txt.bak", "u.csv.orig", "run[1]", "run%5B1%5D", "run1", "wh%3Ft", "what", "in_brackets.txt",
+                "in_plain.txt", "q.txt", "w.txt", "2020-01.csv", "2020-01.csv.dds", "10.txt", "9.csv.dods", "%252e%252e", "%252E%252E", "..%252F", "%25", "s.txt.dds", "%2e%2e%2f"]
         for top, rootname, root, entries in layouts:
             sib_segs = [rootname + "2", rootname + "_old", "other", "s.txt", rootname]
             allsegs = segs + sib_segs
